@@ -309,9 +309,8 @@ func runC19(c *Ctx) {
 		}
 		// failure ⇒ restore then ban; success ⇒ clear temp
 		okRestore := false
-		for i, e := range ff.Edges {
-			f := ff.Facts[i]
-			_ = e
+		for _, de := range deepEdges(fsync) {
+			e, f := de.E, de.F
 			if f.IsCmp && f.Op.String() == "!=" && f.R.Sym == "nil" && (f.L.Op == "call" && (strings.HasPrefix(f.L.Sym, "dyn") || strings.Contains(f.L.Sym, "applyBlocks") || strings.Contains(f.L.String(), ".processor("))) {
 				first := e.To.Instrs[0]
 				isRestore := func(in ssa.Instruction) bool {
@@ -606,12 +605,12 @@ func runC19(c *Ctx) {
 				}
 			}
 		}
-		ok := len(srt) == 1 && send != nil && reachable(srt[0].Call.Block(), send.Block())
+		ok := len(srt) == 1 && send != nil && ((send.Parent() == srt[0].Call.Parent() && reachable(srt[0].Call.Block(), send.Block())) || (send.Parent() != srt[0].Call.Parent() && instrDominates(srt[0].Call, send)))
 		c.Require("C19.R6 download-order", FuncKey(dl), p.Pos(dl.Pos()), "each fetched batch is sorted ascending before its blocks are delivered", ok, "")
 		df := factsOf(dl)
 		okStop := false
-		for i, e := range df.Edges {
-			f := df.Facts[i]
+		for _, de := range deepEdges(dl) {
+			e, f := de.E, de.F
 			if !f.IsCmp && f.Truth && strings.Contains(f.B.String(), "bytes.Equal(") && strings.Contains(f.B.String(), ".end") {
 				for _, in := range e.To.Instrs {
 					if _, isR := in.(*ssa.Return); isR {
